@@ -216,8 +216,10 @@ func init() {
 			cfg := rapid.SampledFrom([][2]int{{9, 16}, {9, 8}, {6, 16}, {6, 8}, {2, 16}, {3, 8}, {5, 16}}).Draw(t, "cfg")
 			maxN := rapid.SampledFrom([]int{1, 7, 64, 256, 300, 512, 1024}).Draw(t, "max")
 			n := rapid.OneOf(rapid.IntRange(0, maxN), rapid.Just(maxN), rapid.Just(maxN+1)).Draw(t, "n")
-			return [][]byte{{byte(cfg[0]), byte(cfg[1])}, u32(maxN), babybearVals(t, n, "v")},
-				[]string{"sis_fast512_16:" + b2s(cfg[0] == 9 && cfg[1] == 16)}, true
+			// the output slice is caller-owned: fresh (zero) or holding earlier contents (e.g. a previous hash)
+			dirty := rapid.IntRange(0, 2).Draw(t, "dirty_res")
+			return [][]byte{{byte(cfg[0]), byte(cfg[1]), byte(dirty)}, u32(maxN), babybearVals(t, n, "v")},
+				[]string{"sis_fast512_16:" + b2s(cfg[0] == 9 && cfg[1] == 16), "sis_dirty_res:" + itoa(dirty)}, true
 		},
 		run: func(a [][]byte) [][]byte {
 			r, err := sis.NewRSis(5, int(a[0][0]), int(a[0][1]), gu32(a[1]))
@@ -226,6 +228,16 @@ func init() {
 			}
 			v := babybearElems(a[2])
 			res := make([]fr.Element, r.Degree)
+			switch a[0][2] {
+			case 1: // reuse the buffer of a previous hash
+				if err := r.Hash(v, res); err != nil {
+					return [][]byte{[]byte("hash: " + err.Error())}
+				}
+			case 2: // arbitrary non-zero contents
+				for i := range res {
+					res[i].SetUint64(uint64(i)*2654435761 + 1)
+				}
+			}
 			if err := r.Hash(v, res); err != nil {
 				return [][]byte{[]byte("hash: " + err.Error())}
 			}
